@@ -285,3 +285,17 @@ package internal_planner
 //@ func (*LabelFilterPlanner).Process$2 [C09]
 //@   flag checks=-index,-assert
 //@   check handed-over-buffer-is-given-up: isnil(_entries)
+
+// What the in-process aggregation hands on: every bucket whose MARKER slot (the odd
+// one) says that it received a sample is emitted with the value of its value slot -
+// whatever that value is; a sum of 0 or a negative minimum is a point like any other
+// (the SQL engine returns it too) - and a bucket without samples is not.
+//@ func (*AggregatorPlanner).process$3 [C09]
+//@   flag checks=-index,-assert
+//@   loop 1:
+//@     modifies everything
+//@   loop 2:
+//@     modifies everything
+//@     step bucket-with-samples-is-emitted-with-its-value: v.values[prev(i) + 1] > 0 ==> len(entries) == prev(len(entries)) + 1 && entries[len(entries) - 1].Value == v.values[prev(i)]
+//@     step bucket-without-samples-is-not: !(v.values[prev(i) + 1] > 0) ==> len(entries) == prev(len(entries))
+//@     step one-bucket-is-two-slots: i == prev(i) + 2
